@@ -1,5 +1,5 @@
 SPECIFICATION TSpec
-CONSTANTS MaxBulk = 1000 MaxFrac = 1000 MaxCrash = 1000 LoaderOrdered = TRUE
+CONSTANTS MaxBulk = 1000 MaxFrac = 1000 MaxCrash = 1000 MaxPending = 8 LoaderOrdered = TRUE
 INVARIANTS TypeOK AckedServed ServedAcked NoDuplicates NoResurrection CreationOrder
 POSTCONDITION Accepted
 CHECK_DEADLOCK FALSE
